@@ -111,7 +111,7 @@ PROPS["C03"] = {
 PROPS["C09"] = {
     "level": "model_checking",
     "technique": "explicit-state BFS to a fixpoint over NMT commands, API mode changes and one probe frame per service, against a reference CiA 301 slave state machine with a per-state gating table",
-    "text": "Node with one of every service (SDO server, asynchronous RPDO, event and synchronous TPDO, SYNC consumer, heartbeat producer and consumer, EMCY, LSS). Alphabet: NMT command specifiers {1,2,128,129,130,0,3,127,255} x target {own id, 0, other, 80h | own id, 80h}; CONmtSetMode, CONodeStart, CONmtReset(node/com), CONodeStop; probe frames for SDO, RPDO, SYNC, heartbeat of a monitored and an unmonitored node, LSS switch/inquire, a foreign identifier and the node's own transmit identifiers; COEmcySet/Clr, COTPdoTrigPdo, tick. After every step: node mode, the sequence of mode-change callbacks, the reset-request callback, the number and content of boot-up frames, which service reacted (frames per identifier, mapped object, PDO callback), and how often the frame was handed to the application callback are compared with the reference. The reachable state set is closed (fixpoint) for node ids 1, 5 and 127, started and unstarted. A fifth configuration replaces the heartbeat services by a TPDO that lives on timers (event time 3 ticks, inhibit time 2 ticks, application trigger): its frames may appear only while the reference FSM is OPERATIONAL, whichever timer or trigger path produces them.",
+    "text": "Node with one of every service (SDO server, asynchronous RPDO, event and synchronous TPDO, SYNC consumer, heartbeat producer and consumer, EMCY, LSS). Alphabet: NMT command specifiers {1,2,128,129,130,0,3,127,255} x target {own id, 0, other, 80h | own id, 80h}; CONmtSetMode, CONodeStart, CONmtReset(node/com), CONodeStop; probe frames for SDO, RPDO, SYNC, heartbeat of a monitored and an unmonitored node, LSS switch/inquire, a foreign identifier, the node's own transmit identifiers and three identifiers that equal a served one (NMT, SDO, RPDO) in their low 11 bits only; COEmcySet/Clr, COTPdoTrigPdo, tick. After every step: node mode, the sequence of mode-change callbacks, the reset-request callback, the number and content of boot-up frames, which service reacted (frames per identifier, mapped object, PDO callback), and how often the frame was handed to the application callback are compared with the reference. The reachable state set is closed (fixpoint) for node ids 1, 5 and 127, started and unstarted. A fifth configuration replaces the heartbeat services by a TPDO that lives on timers (event time 3 ticks, inhibit time 2 ticks, application trigger): its frames may appear only while the reference FSM is OPERATIONAL, whichever timer or trigger path produces them.",
     "note": "heartbeat timing is not compared here (C10), only content and at most one per tick; in STOPPED the delivery of unclaimed frames to the application is unconstrained as the statement says; after CONodeStop only safety is judged; NMT frames carry DLC 2",
     "jobs": {
         "quick": [J("c09", c, depth=80, deadline=120) for c in range(5)],
